@@ -9,7 +9,7 @@ import json
 import os
 import time
 
-from . import common
+from . import c13_levels, common
 from .common import coq_bool, coq_list
 
 LEVEL = "proof"
@@ -52,7 +52,7 @@ def _transition_lines():
     for p in PLATFORMS.values():
         for tbl in p()["trans"].values():
             out |= set(tbl)
-    return out
+    return out | c13_levels.enter_commands()
 
 
 # ------------------------------------------------------------------------------------------------
@@ -177,9 +177,16 @@ def run_connection(scn, workdir, pool=None):
             return out_bytes(o)
         return b""
 
-    dev = SimDevice(plat(kind), outputs=outputs, host=scn.get("host", "router1"))
-    dev.start()
+    ulevels = scn.get("user_levels") or []
     dkw = {}
+    if ulevels:                            # the user's own privilege levels: the device has the modes, the driver is told about them
+        if kind not in c13_levels.ABORT_PLATFORMS:
+            raise RuntimeError("user levels are run on %s only" % c13_levels.ABORT_PLATFORMS)
+        dev = c13_levels.UserLevelDevice(plat(kind), ulevels, outputs=outputs, host=scn.get("host", "router1"))
+        dkw["privilege_levels"] = c13_levels.privilege_levels(kind, ulevels)
+    else:
+        dev = SimDevice(plat(kind), outputs=outputs, host=scn.get("host", "router1"))
+    dev.start()
     if scn.get("driver_markers") is not None:           # the driver-level marker set given at construction
         dkw["failed_when_contains"] = list(scn["driver_markers"])
     d = make_driver(kind, stack, dev, tuple(scn.get("policy", ("whole",))), **dkw)
@@ -321,6 +328,7 @@ def run_connection(scn, workdir, pool=None):
             o["mode"] = dev.mode
             o["residue"] = d.transport.residue()
             o["markers_default"] = list(getattr(d, "failed_when_contains", []) or []) if kind != "generic" else []
+            o["user_levels"] = ulevels
             obs.append(o)
             if o["exc"] == "Starved":
                 break
@@ -351,10 +359,12 @@ def call_markers(kind, op, o):
     return [f] if isinstance(f, str) else list(f)
 
 
-def is_transition(kind, mode, raw):
+def is_transition(kind, mode, raw, ulevels=None):
     from .simdevice import PLATFORMS
     t = PLATFORMS[plat(kind)]()
     line = raw.decode("latin-1").strip()
+    if c13_levels.is_user_transition(ulevels, mode, line):
+        return True
     tbl = t["trans"].get("session" if mode.startswith("session:") else mode, {})
     if line in tbl:
         return True
@@ -503,7 +513,7 @@ def oracle_delivery(kind, op, o):
                         "privilege navigation to %r after the lines were written (the failed session is %s)" % (x, tm)))
             break
     for (m, raw, _, nav) in o["log"]:
-        if nav and not is_transition(kind, m, raw):
+        if nav and not is_transition(kind, m, raw, o.get("user_levels")):
             bad.append(("nav-wrote-content", "navigation wrote the non-navigation line %r in %s" % (raw, m)))
             break
     full = o["log"]
@@ -520,10 +530,18 @@ def oracle_delivery(kind, op, o):
         bad.append(("line-in-wrong-mode", "line %r ran in %s, expected %s" % (wrong_mode[0][1], wrong_mode[0][0], tm)))
     post = full[lead + len(user):]
     is_cfg = op["op"] in ("send_configs", "send_config", "send_configs_from_file")
-    sessionful = (kind in ("cisco_iosxr", "juniper_junos")) or tm.startswith("session:")
+    # a level the USER added (his privilege_levels: a shell, ...) is no configuration session on any platform
+    at_user_level = tm in [u["name"] for u in o.get("user_levels") or []]
+    sessionful = ((kind in ("cisco_iosxr", "juniper_junos")) and not at_user_level) or tm.startswith("session:")
     if not (failed_run and is_cfg and sessionful):
         if post or extra:
-            bad.append(("extra-lines", "lines beyond the input were written: %r %r" % (extra[:80], [p[1] for p in post])))
+            steps = [p[1] for p in post if p[1].decode("latin-1").strip() in ABORT_STEPS.get(kind, set())]
+            if at_user_level and failed_run and steps:
+                bad.append(("abort-at-user-level:" + kind, "after the failed line the abort / rollback step %r was written at the user-supplied "
+                            "privilege level %r, which is no configuration session (device log after the lines: %r; the driver now believes it "
+                            "is in %r, the device is in %r)" % (steps, tm, [(p[0], p[1]) for p in post], o["cur"], o["mode"])))
+            else:
+                bad.append(("extra-lines", "lines beyond the input were written: %r %r" % (extra[:80], [p[1] for p in post])))
     else:
         steps = 0
         for (m, raw, _, nav) in post:
@@ -633,8 +651,14 @@ def case_term(kind, stack, op, o):
     f = op["fwc"]
     fwc = "FNone" if f is None else ("(FStr %s)" % u8(f) if isinstance(f, str) else "(FList %s)" % coq_list([u8(x) for x in f]))
     drv = "gen_drv_%s_%s" % ("network" if kind == "generic" else kind, stack)
-    if op.get("dflt") is not None:
-        drv = "(mkD (d_abort %s) (d_levels %s) (d_default_priv %s) %s)" % (drv, drv, drv, coq_list([u8(x) for x in op["dflt"]]))
+    if op.get("dflt") is not None or o.get("user_levels"):
+        # the driver as constructed by the scenario: its own marker set, the user's extra levels (name, "pattern contains config\-s")
+        lv = "(d_levels %s)" % drv
+        if o.get("user_levels"):
+            lv = "(%s ++ %s)" % (lv, coq_list(["(%s, %s)" % (u8(u["name"]), coq_bool(c13_levels.is_session_pattern(u["pattern"])))
+                                               for u in o["user_levels"]]))
+        mk = coq_list([u8(x) for x in op["dflt"]]) if op.get("dflt") is not None else "(d_markers %s)" % drv
+        drv = "(mkD (d_abort %s) %s (d_default_priv %s) %s)" % (drv, lv, drv, mk)
     ver = "(mkV gen_sc_guard_empty_%s gen_guard_cfg)" % stack
     evs = coq_list(["(EW %s)" % coq_bytes(x) if k == "w" else "(ENav %s)" % u8(x) for k, x in o["events"]])
     merged = "None" if o["merged"] is None else "(Some (%s, %s))" % (coq_bool(o["merged"][0]), u8(o["merged"][1]))
@@ -1325,6 +1349,90 @@ def minimise_history(hist, ci, k, sig, workdir):
     return best
 
 
+# ------------------------------------------------------------------------------------------------
+# user-supplied privilege levels (harness/c13_levels.py): the driver is constructed with privilege_levels = the platform's own + one or
+# two levels of the user's (the device's Linux shell, a guest shell, a line-card shell: custom names, custom patterns; NOT configuration
+# sessions), on the platforms that have an abort / rollback step.  Histories of 1-3 calls: pushes at the user's level - mostly
+# stop_on_failed with a failing line -, at the registered session, at the plain configuration levels, commands in between (the next
+# call shows whether the driver still knows where it is).  Oracle as everywhere: navigation, the lines up to the failing one, and the
+# abort step ONLY inside a configuration session.
+# ------------------------------------------------------------------------------------------------
+def gen_shell_line(rng, trans):
+    if rng.random() < 0.6:
+        return rng.choice(c13_levels.SHELL_LINES) + rng.choice(["", "", "", " ", " x%d" % rng.randint(0, 99)])
+    return gen_line(rng, trans)
+
+
+def gen_user_level_scenario(rng, trans, kind=None, stack=None):
+    kind = kind or rng.choice(c13_levels.GUARDED * 3 + ["cisco_iosxr", "juniper_junos"])
+    stack = stack or rng.choice(["sync", "async"])
+    levels = c13_levels.gen_levels(rng, kind)
+    names = [u["name"] for u in levels]
+    ops = []
+    for j in range(rng.choice([1, 2, 2, 3])):
+        r = rng.random()
+        if j and r < 0.25:
+            ops.append(gen_op(rng, kind, trans, {"op": rng.choice(["send_command", "send_commands"])}))
+            continue
+        force = {"op": rng.choice(["send_configs", "send_configs", "send_config", "send_configs_from_file"])}
+        if j == 0 or r < 0.75:
+            force["priv"] = rng.choice(names)
+            force["fwc"] = rng.choice([None, None, "No such file", ["command not found", "No such file or directory"], ["Permission denied"], "ERR"])
+            force["lines"] = [gen_shell_line(rng, trans) for _ in range(rng.choice([1, 2, 3, 3, 4, 5]))]
+            force["stop"] = rng.random() < 0.85
+            force["nfail"] = rng.choice([1, 1, 1, 0, 2])
+            if kind not in c13_levels.GUARDED:
+                # IOS-XR / Junos abort unconditionally (known findings C13-*-abort-at-user-level, replayed on every run): the generated
+                # histories keep away from a failed stop_on_failed run AT the user's level there, everything else is explored
+                if rng.random() < 0.5:
+                    force["stop"] = False
+                else:
+                    force["nfail"] = 0
+        else:
+            force["priv"] = rng.choice(CONFIG_LEVELS[kind])
+            force["stop"] = rng.random() < 0.8
+            force["nfail"] = rng.choice([0, 1, 1])
+        ops.append(gen_op(rng, kind, trans, force))
+    pol = rng.choice([("whole",), ("whole",), ("bytes", 3), ("bytes", 7), ("random", rng.randint(0, 10 ** 6), 9)])
+    if any(o["eager"] for o in ops if o["op"] != "send_command"):
+        pol = ("whole",)
+    return {"kind": kind, "stack": stack, "ops": ops, "policy": list(pol), "user_levels": levels}
+
+
+def user_level_corpus():
+    """fixed shapes: on NX-OS / EOS, both stacks: a failed stop_on_failed push in the user's shell (nothing but the lines up to the
+    failing one), a command right after it (the driver must know where it is), a failed push in the registered session with the
+    user's level present (abort inside the session), the shell again; on IOS-XR / Junos: a push in the user's level that does not
+    stop, and a failed push in a real configuration session with the user's level present (abort / rollback there)"""
+    out = []
+    sh = ["ls /mnt/flash", "cat /nope", "rm -f /mnt/flash/old.swi"]
+    shout = ["", "cat: /nope: No such file or directory", ""]
+
+    def op(name, lines, outs, priv, fwc=None, stop=True):
+        return {"op": name, "lines": list(lines), "outs": list(outs), "fwc": fwc, "stop": stop, "eager": False, "priv": priv}
+    for i, (kind, flavour, name) in enumerate((("arista_eos", "bash", "bash"), ("cisco_nxos", "run-bash", "bash"),
+                                               ("cisco_nxos", "guestshell", "guest"), ("arista_eos", "bash-plain", "linux_shell"))):
+        for si, stack in enumerate(("sync", "async")):
+            lv = c13_levels.make_level(kind, flavour, name, i + si)
+            err = VENDOR_ERRORS[kind][0]
+            out.append({"kind": kind, "stack": stack, "policy": ["whole"], "user_levels": [lv], "ops": [
+                op("send_configs", sh, shout, name, fwc=["No such file"]),
+                op("send_command", ["show version"], ["version 4"], ""),
+                op("send_configs", ["vlan 10", "bogus", "never"], ["", err, ""], SESSION),
+                op("send_configs", sh[:1] + ["bogus here"], ["", err], name),
+                op("send_configs", ["vlan 20", "bogus"], ["", err], "")]})
+    for kind, flavour, name, cfg in (("cisco_iosxr", "run", "bash", "configuration_exclusive"), ("juniper_junos", "pfe-vty", "vty", "configuration_private")):
+        for stack in ("sync", "async"):
+            lv = c13_levels.make_level(kind, flavour, name)
+            err = VENDOR_ERRORS[kind][0]
+            out.append({"kind": kind, "stack": stack, "policy": ["whole"], "user_levels": [lv], "ops": [
+                op("send_configs", sh, shout, name, fwc=["No such file"], stop=False),
+                op("send_configs", ["set a 1", "set bogus 2", "set never 3"], ["", err, ""], cfg),
+                op("send_configs", sh[:1], [""], name),
+                op("send_command", ["show version"], ["version 4"], "")]})
+    return out
+
+
 def gen_scenario(rng, trans, kind=None, stack=None):
     kind = kind or rng.choice(KINDS)
     stack = stack or rng.choice(["sync", "async"])
@@ -1635,6 +1743,9 @@ def minimise(scn, k, workdir, sig):
     best = {"kind": scn["kind"], "stack": scn["stack"], "policy": scn["policy"], "ops": list(scn["ops"][:k + 1])}
     if scn.get("driver_markers") is not None:
         best["driver_markers"] = scn["driver_markers"]
+    for key in ("user_levels", "host"):
+        if scn.get(key) is not None:
+            best[key] = scn[key]
 
     def fails(s):
         try:
@@ -1760,6 +1871,13 @@ def run(rep):
         scenarios.append(("file-history", s))
     for _ in range(100 if thorough else 14):
         scenarios.append(("file-history", gen_file_history(rng_raw, trans)))
+    # user-supplied privilege levels (own generator state again)
+    rng_lvl = random.Random(rep.seed * 1000003 + 0xC13D)
+    for s in user_level_corpus():
+        scenarios.append(("user-levels", s))
+    for j in range(320 if thorough else 44):
+        scenarios.append(("user-levels", gen_user_level_scenario(rng_lvl, trans, kind=c13_levels.GUARDED[j % 2] if j < 8 else None,
+                                                                 stack=("sync", "async")[(j // 2) % 2] if j < 8 else None)))
     # list histories (own generator state again): ONE list object handed to call after call, connection after connection
     rng_hist = random.Random(rep.seed * 1000003 + 0xC13C)
     histories = [jsonable(h) for h in list_history_corpus()] + [jsonable(gen_list_history(rng_hist, trans)) for _ in range(240 if thorough else 36)]
@@ -1775,6 +1893,9 @@ def run(rep):
             "list_reuse": {"histories": len(histories), "connections": 0, "calls_given_a_shared_list": 0, "list_handed_over_before": 0,
                            "handed_over_before_on_another_connection": 0, "edited_in_place_by_the_caller_since": 0,
                            "after_a_stop_on_failed_break_on_it": 0, "marker_list_handed_over_before": 0, "refused_containers": 0},
+            "user_levels": {"connections": 0, "two_levels": 0, "calls": 0, "calls_at_user_level": 0, "failed_stop_on_failed_runs_at_user_level": 0,
+                            "failed_stop_on_failed_runs_in_session_or_configuration": 0, "calls_after_a_failed_run_at_user_level": 0,
+                            "by_flavour": {}, "by_name": {}, "by_pattern": {}},
             "by_stream": {}, "by_kind": {}, "by_op": {}, "by_stack": {}, "lines_hist": {}, "stop": 0, "eager": 0, "policy": {},
             "fwc_kind": {}, "first_failing_pos": {}, "aborts_seen": 0, "unicode_lines": 0, "blank_lines": 0, "long_lines": 0,
             "nav_events": 0, "exceptions": {}, "stalled_calls": 0,
@@ -1796,6 +1917,23 @@ def run(rep):
             rep.broken.append("harness: connection failed: %s: %s" % (type(e).__name__, e))
             rep.notes.append(json.dumps(scn)[:1500])
             continue
+        if scn.get("user_levels"):
+            ul = dist["user_levels"]
+            ul["connections"] += 1
+            ul["two_levels"] += len(scn["user_levels"]) > 1
+            for u in scn["user_levels"]:
+                for key, val in (("by_flavour", u["flavour"]), ("by_name", u["name"]), ("by_pattern", u["pattern"])):
+                    ul[key][val] = ul[key].get(val, 0) + 1
+            unames, after_failed = [u["name"] for u in scn["user_levels"]], False
+            for k, o in enumerate(obs):
+                op = scn["ops"][k]
+                failed_run = op["op"] != "send_command" and op["stop"] and any(planned(scn["kind"], op, o)[1])
+                ul["calls"] += 1
+                ul["calls_at_user_level"] += op.get("priv") in unames
+                ul["calls_after_a_failed_run_at_user_level"] += after_failed
+                if "config" in op["op"] and failed_run:
+                    ul["failed_stop_on_failed_runs_at_user_level" if op.get("priv") in unames else "failed_stop_on_failed_runs_in_session_or_configuration"] += 1
+                    after_failed = after_failed or op.get("priv") in unames
         for k, o in enumerate(obs):
             op = scn["ops"][k]
             kind = scn["kind"]
@@ -1905,6 +2043,25 @@ def run(rep):
                 pass
     except Exception as e:  # noqa
         rep.notes.append("straddle replay could not run: %r" % (e,))
+    # known findings: IOS-XR / Junos _abort_config is unconditional - after a failed stop_on_failed push at a user-supplied level the
+    # abort / rollback step is typed there.  Replayed on every run; any OTHER failure of these replays is a violation.
+    for f in rep.findings:
+        p = os.path.join(common.VERIF, f.get("replay", ""))
+        if f.get("kind") != "known" or not f.get("signature", "").startswith("abort-at-user-level:") or not os.path.exists(p):
+            continue
+        try:
+            for stack in ("sync", "async"):
+                kscn = dict(json.load(open(p))["scenario"], stack=stack)
+                for k, o in enumerate(run_connection(jsonable(kscn), rep.workdir)):
+                    for sig, text in oracle(kscn["kind"], kscn["ops"][k], o):
+                        if sig == f["signature"]:
+                            rep.violation("%s %s %s: %s" % (kscn["kind"], kscn["stack"], kscn["ops"][k]["op"], text),
+                                          {"suite": "send-delivery", "scenario": kscn, "op": k, "signature": sig,
+                                           "rerun": "./check C13 --replay <this file>"}, signature=sig)
+                        else:
+                            fails.append((kscn, k, sig, text))
+        except Exception as e:  # noqa
+            rep.broken.append("harness: replay of %s could not run: %r" % (f["id"], e))
     # the response layer alone (real Response / MultiResponse, no device): marker sets as text x outputs of every shape
     dcases, dterms, dmeta, dfails = [gen_direct(rng) for _ in range(4000 if thorough else 500)], [], [], []
     dcases += [gen_direct_raw(rng_raw) for _ in range(2000 if thorough else 250)]
@@ -1985,6 +2142,9 @@ def run(rep):
                 "list histories (stream 'list-history'): ONE list object (1-2 per history, 0-6 lines) handed to send_commands / send_configs again and again on 1-3 "
                 "connections of any driver / stack, edited in place by the caller in between (set / append / insert / del), stop_on_failed breaks in between; the "
                 "caller's list (and per-call marker list) compared with a copy after every call of every stream; "
+                "user-supplied privilege levels (stream 'user-levels'): NX-OS / EOS / IOS-XR / Junos drivers constructed with 1-2 extra non-session levels "
+                "(8 names x 11 pattern spellings x 6 vendor shell modes), 1-3 calls per connection, pushes at the user's level (85 % stop_on_failed, failing "
+                "position sampled), at the session and the configuration levels, commands in between; "
                 "non-trivial = more than one line or an exception; distinct = (driver, stack, op)")
     seen = set()
     for scn, k, sig, text in fails:
@@ -2147,6 +2307,9 @@ def replay(path):
 
 def _replay_ops(r, scn, obs):
     rc = 0
+    for u in scn.get("user_levels") or []:
+        print("the driver is constructed with the user's own privilege level %r (pattern %r, from %r by %r, left by %r); on the device that "
+              "mode's prompt is %r" % (u["name"], u["pattern"], u["from"], u["enter"], u["leave"], u["prompt"]))
     for k, o in enumerate(obs):
         op = scn["ops"][k]
         print("op %d: %s %s %s lines=%r stop=%s eager=%s priv=%r fwc=%r%s" % (
@@ -2176,7 +2339,7 @@ def _replay_ops(r, scn, obs):
 
 
 MANIFEST = {
-    "text": "Coq theorems (props/C13.v, 30 property theorems, all 'Closed under the global context') over the model of the send paths "
+    "text": "Coq theorems (props/C13.v, 32 property theorems, all 'Closed under the global context') over the model of the send paths "
             "(coq/model/Send.v, Response.v, ResponseRaw.v), for ALL line lists, ALL devices (an arbitrary function position x line -> output), marker sets and flags: "
             "C13_delivery_exact / C13_delivery_bytes (send_commands: each line once, in order, byte for byte, one return each, one response per line; "
             "the empty list included), C13_stop_on_failed_prefix (first failing position k => exactly lines 0..k), C13_failed_iff_marker, "
@@ -2238,7 +2401,24 @@ MANIFEST = {
             "(caller-list-stale); per-call marker lists of equal content are one shared object per history as well. Tuples and iterators are "
             "not accepted by the code (ScrapliTypeError): they must be refused with nothing written, the list behind them and the iterator "
             "untouched (caller-iterator-consumed). A failing history is cut after the failing call and shrunk by whole calls / connections; "
-            "the replay file holds the whole history ({lists, connections}) and the replay prints the caller's list before and after each call.",
+            "the replay file holds the whole history ({lists, connections}) and the replay prints the caller's list before and after each call. "
+            "User-supplied privilege levels (stream 'user-levels', harness/c13_levels.py): on the platforms that have an abort / rollback step "
+            "(NX-OS, EOS, IOS-XR, Junos; both stacks) the driver is CONSTRUCTED with privilege_levels = the platform's own + one or two levels "
+            "of the user's that are no configuration sessions (the device's Linux shell, guest shell, line-card shell: 8 custom names - with and "
+            "without 'config' in them, upper case -, 2-3 spellings of each prompt pattern, anchored or not) and the simulated device has those "
+            "modes (vendor side: entered / left by the vendor's commands, own prompt; independent of the driver's tables). Histories of 1-3 calls: "
+            "send_configs / send_config / send_configs_from_file AT the user's level - mostly stop_on_failed with a failing line at every position, "
+            "driver-default and per-call markers -, at the registered session, at the plain configuration levels, commands in between and "
+            "afterwards (a call after a failed run shows whether the driver still knows where it is: line-in-wrong-mode). Oracle unchanged: the "
+            "device receives the navigation, exactly the lines up to the failing one, and the platform's abort step ONLY inside a configuration "
+            "session - an abort / rollback line logged in the user's level is the failing input (signature abort-at-user-level:<platform>). "
+            "C13_failed_run_outside_session proves for every guarded abort shape, every driver table and every level that is no session: a "
+            "failed run = [navigation] ++ lines 0..k, nothing else, believed level kept; C13_generated_user_levels instantiates its premises on the "
+            "regenerated NX-OS / EOS drivers (both twins) extended by a user level, and shows the regenerated IOS-XR / Junos shapes to be unguarded "
+            "(known findings C13-iosxr-abort-at-user-level, C13-junos-abort-at-user-level: replayed on both stacks on every run; the generated "
+            "histories keep away from a failed stop_on_failed run at the user's level on those two platforms and explore everything else there). "
+            "The implementation runs and the oracle do not depend on the translator: when gen_send refuses a changed _abort_config the "
+            "failing-input search still runs on the real code and reports its inputs.",
     "note": "Proved on the model; the runtime is observed (partial): privilege navigation is abstracted to one event per acquire_priv call (its "
             "content is C04's subject; observed by wrapping acquire_priv on the driver instance, and checked device-side to consist of vendor transitions only), "
             "the channel's echo/prompt reading is C01/C02's subject (the device output per line is an arbitrary function in the theorems and the observed "
@@ -2272,8 +2452,12 @@ MANIFEST = {
             "caller-markers-changed, caller-markers-stale, caller-iterator-consumed) is oracle-only - object identity and mutation are not modelled; the only static "
             "tie there is C13_generated_send_commands_structure (the loop iterates over the slice commands[:-1], read from the AST). Refused "
             "containers (tuple, iterator: ScrapliTypeError) are oracle-only as well. "
+            "User-supplied levels are covered by the model, not oracle-only: the case's driver is the regenerated one with d_levels extended by "
+            "(name, 'the user's pattern contains config\\-s') (Send_Proofs.with_levels) and must agree on events, flags and believed level; how "
+            "the navigation reaches the user's level (escalate / deescalate commands, prompt patterns) stays abstracted to one ENav event (C04), "
+            "checked device-side to consist of the vendor's transitions only. "
             "Unknown privilege level names (malformed stream) are model-vs-implementation only. Trusted: Coq kernel + vm_compute, gen/gen_send.py "
-            "(AST reading of _abort_config / send_commands), SimDevice and the scripted transports.",
+            "(AST reading of _abort_config / send_commands), SimDevice (+ the vendor-side shell modes of harness/c13_levels.py) and the scripted transports.",
     "technique": "Coq proofs by induction over the line list (loop invariant of the all-but-last loop with break, splitlines scanner invariant, infix/join lemma) "
                  "+ vm_compute refutations of the pinned code + regenerated data obligations + vm_compute correspondence against sync and asyncio drivers "
                  "over a simulated device + device-side property oracle with minimised replays",
